@@ -17,7 +17,8 @@ waiters strictly from the front while they fit (`notifyWaiters`).
   accepted connection (`open`).
 * `connClose id` = `limitListenerConn.Close`: `releaseOnce.Do(release)` — releases one unit the
   first time only.
-* `setMax n` = `SetMaxConnection` → `SetMaxCount`: `realCapacity` is swapped under the lock and
+* `acceptFail id` = the inner `Listener.Accept` fails: the unit is given back.
+* `setMax n` = `SetMaxConnection` → `SetMaxCount` (`n` clamped to `M`): `realCapacity` is swapped under the lock and
   a goroutine is spawned (`pending`) that later (`adjust`) releases `n - old` or acquires
   `old - n` (possibly blocking in the FIFO queue).
 * `runtime.reload` calls `limitListener.SetMaxConnection(nextSpec.MaxConnections)` (regenerated fact).
@@ -87,9 +88,27 @@ def semAcquire (c : Cap) (w : Waiter) : Cap :=
 /-- `Weighted.Release(n)` (enabledness `n ≤ cur` checked by the caller) -/
 def semRelease (c : Cap) (n : Int) : Cap := notify { c with cur := c.cur - n } c.waiters
 
+/-- what the goroutine spawned by `SetMaxCount` does, in order -/
+inductive AdjOp
+  | release (k : Int)      -- `s.sem.Release(k)`
+  | acquire (k : Int)      -- `s.sem.Acquire(context.Background(), k)`
+  | done                   -- `close(done)`
+deriving DecidableEq, Repr
+
+/-- body of `go func() { if n > old { Release(n-old) } else if n < old { Acquire(old-n) }; close(done) }()` -/
+def adjBody (n old : Int) : List AdjOp :=
+  (if n > old then [AdjOp.release (n - old)] else if n < old then [AdjOp.acquire (old - n)] else []) ++ [AdjOp.done]
+
+/-- `Semaphore.SetMaxCount(n)` on `realCapacity = realCap`: (new `realCapacity`, recorded actions
+of the spawned goroutine). `n` is clamped to `maxCapacity`. -/
+def setMaxCount (realCap n : Int) : Int × List AdjOp :=
+  let n' := if n > M then M else n
+  (n', adjBody n' realCap)
+
 inductive Act
   | acquire (id : Nat)
   | acceptDone (id : Nat)
+  | acceptFail (id : Nat)
   | connClose (id : Nat)
   | setMax (n : Int)
   | adjust (id : Nat)
@@ -114,14 +133,23 @@ def step (c : Cap) : Act → Option Cap
   | .acceptDone id =>
     if id ∈ c.inAccept ∧ id ∉ c.opened then some { c with inAccept := c.inAccept.erase id, opened := id :: c.opened }
     else none
+  | .acceptFail id =>
+    -- the inner `Listener.Accept` failed: `Accept` gives its unit back and returns the error
+    -- (`acceptBody true false true = (false, 0)`)
+    if id ∈ c.inAccept then
+      if 1 ≤ c.cur then some (semRelease { c with inAccept := c.inAccept.erase id } 1) else none
+    else none
   | .connClose id =>
     if id ∈ c.opened then
       if 1 ≤ c.cur then some (semRelease { c with opened := c.opened.erase id, closed := id :: c.closed } 1) else none
     else if id ∈ c.closed then some c      -- sync.Once: nothing happens
     else none
   | .setMax n =>
-    if 0 ≤ n ∧ n ≤ M then
-      some { c with realCap := n, pending := c.pending ++ [(c.nextAdj, n - c.realCap)], nextAdj := c.nextAdj + 1 }
+    -- `SetMaxCount(n)`: `n` is clamped to `maxCapacity` (`setMaxCount`, tied by translation)
+    if 0 ≤ n then
+      some { c with realCap := (setMaxCount c.realCap n).1,
+                    pending := c.pending ++ [(c.nextAdj, (setMaxCount c.realCap n).1 - c.realCap)],
+                    nextAdj := c.nextAdj + 1 }
     else none
   | .adjust id =>
     match takeAdj id c.pending with
@@ -145,23 +173,6 @@ def run : Cap → List Act → Cap
 unit bookkeeping, `limitListenerConn.Close` / `LimitListener.Close` (`sync.Once`). The step
 function above is proved to be built from these (`setMax_step_is_setMaxCount`,
 `adjust_step_is_adjBody`, `connClose_is_connCloseBody` in `Proofs/ConnCapIR.lean`). -/
-
-/-- what the goroutine spawned by `SetMaxCount` does, in order -/
-inductive AdjOp
-  | release (k : Int)      -- `s.sem.Release(k)`
-  | acquire (k : Int)      -- `s.sem.Acquire(context.Background(), k)`
-  | done                   -- `close(done)`
-deriving DecidableEq, Repr
-
-/-- body of `go func() { if n > old { Release(n-old) } else if n < old { Acquire(old-n) }; close(done) }()` -/
-def adjBody (n old : Int) : List AdjOp :=
-  (if n > old then [AdjOp.release (n - old)] else if n < old then [AdjOp.acquire (old - n)] else []) ++ [AdjOp.done]
-
-/-- `Semaphore.SetMaxCount(n)` on `realCapacity = realCap`: (new `realCapacity`, recorded actions
-of the spawned goroutine). `n` is clamped to `maxCapacity`. -/
-def setMaxCount (realCap n : Int) : Int × List AdjOp :=
-  let n' := if n > M then M else n
-  (n', adjBody n' realCap)
 
 /-- one recorded action applied to the semaphore by adjustment goroutine `id` -/
 def applyAdjOp (c : Cap) (id : Nat) : AdjOp → Option Cap
